@@ -211,7 +211,7 @@ def gen_request(prj, rng, conn_size=4000, for_write=False, tag=None, want=None):
             in_array, avail = False, 1
             shape.append(".m")
     # ---- .bit of an integer ----------------------------------------------------------------------------------------------
-    if dtype.name in rpj.INT_ATOMS and rng.random() < (0.25 if not for_write else 0.3):   # signed AND unsigned integers
+    if dtype.kind == "atomic" and dtype.name in rpj.INT_ATOMS and rng.random() < (0.25 if not for_write else 0.3):   # signed AND unsigned integers
         bit = rng.choice([0, 1, 7, 8 * dtype.size - 1, rng.randrange(8 * dtype.size)])
         bit = min(bit, 8 * dtype.size - 1)
         return Req(f"{text}.{bit}", tag, dtype, off, 1, False, "bit", bit=bit, avail=1, shape="".join(shape) + ":bit")
@@ -239,7 +239,8 @@ def _atom_value(rng, name):
         return rng.choice([lo, hi, 0, 1, -1 if d[2] else 1, rng.randint(lo, hi), rng.randint(lo, hi)])
     if d[0] == "real":
         if rng.random() < 0.3:
-            bits = rng.choice([0x7F800000, 0xFF800000, 0x00000001, 0x7F7FFFFF, 0x3F800000, 0x80000000]) if size == 4 else rng.choice([0x7FF0000000000000, 1, 0x3FF0000000000000])
+            bits = rng.choice([0x7F800000, 0xFF800000, 0x00000001, 0x7F7FFFFF, 0x3F800000, 0x80000000, 0x7FC00000, 0x00000000]) if size == 4 else \
+                rng.choice([0x7FF0000000000000, 1, 0x3FF0000000000000, 0x7FF8000000000000, 0x8000000000000000, 0xFFF0000000000000, 0])
             return struct.unpack("<f" if size == 4 else "<d", bits.to_bytes(size, "little"))[0]
         return struct.unpack("<f", struct.pack("<f", rng.uniform(-1e6, 1e6)))[0] if size == 4 else rng.uniform(-1e12, 1e12)
     if d[0] == "bool":
@@ -274,6 +275,10 @@ def attach_value(req, rng):
     """choose an in-domain value for a write request"""
     if req.kind in ("bit", "boolmember"):
         req.value = rng.random() < 0.5
+        if rng.random() < 0.15:
+            # a bit is written from a truth value (the library tests `if value:`): a caller's 1 / 0, and any other non-zero int - also an
+            # even one - is True
+            req.value = rng.choice([1, 1, 2, 4, 0x80, 255, 256, -1, -2]) if req.value else 0
     elif req.kind == "boolarray":
         if req.is_list:
             extra = rng.choice([0, 0, 32])
